@@ -289,9 +289,6 @@ def nontrivial(rec):
 
 # ------------------------------------------------------------------ (agree)
 def check_agree(rec):
-    for sp in rec["spaces"]:
-        if two_bins(sp["grid"]) and sp["model"] == "np" and sp["flex"] is not None:
-            pass   # admissible: see ASSUMPTIONS
     with convention(rec["conv"]):
         cfm, op = build_cl(rec)
         jcfm, jop = build_re(rec)
@@ -669,15 +666,17 @@ def _grid(draw, budget, allow_hp):
     return {"t": "rg", "shape": [a, b], "dist": [d0, d1]}
 
 
-def _space(draw, i, budget, models, kinds, allow_hp, cl_only=False):
+def _space(draw, i, budget, models, kinds, allow_hp, degenerate=False):
     g = _grid(draw, budget, allow_hp)
+    if degenerate:
+        g = {"t": "rg", "shape": [draw(st.integers(2, 3))], "dist": [draw(LDIST)]}
     model = draw(st.sampled_from(models))
     sp = {"model": model, "grid": g, "pre": draw(st.sampled_from([f"s{i}", f"ax{i}_", "" if i == 0 else f"b{i}"])),
           "kind": draw(st.sampled_from(kinds)), "scalar_dist": draw(st.booleans())}
     if model == "np":
         how = draw(st.sampled_from(["none", "flex", "flex_asp", "flex_asp"]))
-        if two_bins(g) and draw(st.integers(0, 15)) != 0:
-            how = "none"
+        if two_bins(g):
+            how = "none" if not degenerate else draw(st.sampled_from(["flex", "flex_asp"]))
         sp["fluct"] = _ln(draw, 0.25, 4.0)
         sp["slope"] = [draw(S.dyadic(-6.0, 1.0, 4)), draw(st.sampled_from([0.125, 0.5, 1.0]))]
         sp["flex"] = _ln(draw, 0.25, 2.0) if how != "none" else None
@@ -708,7 +707,7 @@ def _distinct_prefixes(spaces):
     return spaces
 
 
-def agree_recipes(nspaces):
+def agree_recipes(nspaces, degenerate=False):
     def strategy(tier):
         total = 600 if tier == "quick" else 1500
 
@@ -719,13 +718,22 @@ def agree_recipes(nspaces):
             budget = 144 if nspaces == 1 else total
             for i in range(nspaces):
                 per = budget if nspaces == 1 else max(2, min(144, budget // (2 if i == 0 else 1)))
-                sp = _space(draw, i, per, ["np", "np", "np", "matern"], ["power", "power", "amplitude"], True)
+                if degenerate and i == 0:
+                    sp = _space(draw, i, per, ["np"], ["power", "power", "amplitude"], False, degenerate=True)
+                else:
+                    sp = _space(draw, i, per, ["np", "np", "np", "matern"], ["power", "power", "amplitude"], True)
                 spaces.append(sp)
                 budget = max(2, budget // _points(sp["grid"]))
+            if degenerate and nspaces == 2 and draw(st.booleans()):
+                spaces = spaces[::-1]
             r["spaces"] = _distinct_prefixes(spaces)
             return r
         return rec()
     return strategy
+
+
+def degenerate_recipes(tier):
+    return st.one_of(agree_recipes(1, True)(tier), agree_recipes(2, True)(tier))
 
 
 def scale_recipes(impl, models):
@@ -763,8 +771,7 @@ def scale_recipes(impl, models):
             cand = [i for i, sp in enumerate(spaces) if n_now * 2 ** len(sp["grid"]["shape"]) <= 2 * total]
             if cand and draw(st.booleans()):
                 dbl = [draw(st.sampled_from(cand))]
-            fac = [draw(st.sampled_from([1.0, 1.0, 0.125, 0.5, 3.0, 10.0])) if (dbl or i > 0 or True) else 1.0
-                   for i in range(nsp)]
+            fac = [draw(st.sampled_from([1.0, 1.0, 0.125, 0.5, 3.0, 10.0])) for i in range(nsp)]
             if not dbl and all(f == 1.0 for f in fac):
                 fac[0] = 3.0
             r["meta"] = {"double": dbl, "factor": fac}
@@ -784,6 +791,11 @@ SUBS = [
         jax=True,
         rule="two sub-spaces with independently generated (mixed) amplitude models: nifty.cl maker == nifty.re "
              "maker (field, 1e-9), latents mapped by the documented key names; " + NT),
+    Sub(name="agree_single_mode_length", check=check_agree, strategy=degenerate_recipes, quick=64, thorough=1000,
+        shards=4, jax=True,
+        rule="a 1-D sub-space of size 2 or 3 (one non-zero mode length) configured with flexibility (and asperity), "
+             "alone or next to a second generated sub-space: nifty.re ignores the undefined smooth deviations, "
+             "nifty.cl must give the same finite field; " + NT),
     Sub(name="scale_cl_nonparametric", check=check_scale_cl, strategy=scale_recipes("cl", ["np"]), quick=320,
         thorough=8000, shards=16,
         rule="classic maker, non-parametric amplitudes, 1-2 regular sub-spaces, zero mode log-normal / scalar / None: "
